@@ -163,6 +163,10 @@ FORMS = [
          apply=_set(x=2, z=4), skip=_set(z=4)),
     Form('infor', 'stmt', _L('FOR k@% = 1 TO 1', 'x@% = x@% + FX', 'NEXT'), ('main', 1, 0),
          apply=_set(x=2, k=2), skip=_set(k=2)),
+    # the fault strikes after a FUNCTION called by the same statement has
+    # returned (its result is on the operand stack)
+    Form('aft', 'stmt', _L('x@% = fe%(3) + FX'), ('main', 0, 0),
+         apply=_set(x=8), skip=_none),
     # call chain of depth two
     Form('deep', 'proc', _L('CALL sc(j@%, d@%, v@%, c@%, @)'), ('proc:fb', 0, 0),
          apply=_ap_deep, skip=_none),
@@ -470,9 +474,36 @@ class Compiled:
             self.points.setdefault(pick, []).append(tag)
 
 
+class _StoreCanon(Canon):
+    """like Canon, but a call frame is its cells and its link to the calling
+    frame only.  The other attributes of a frame are bookkeeping of the VM
+    (addresses kept for the debugger, the operand-stack sizes remembered for
+    RETURN and for the error handler) that no BASIC program can read; the one
+    that does influence behaviour, the stack size remembered at the start of
+    the current statement, is dead at our observation points: every
+    observation point is the first instruction of a statement, so the very
+    next tick overwrites it before anything reads it, and at a module-level
+    observation point there is no other frame.  What such bookkeeping does to
+    the program is observed through the trace, the stack and the cells."""
+
+    def segment(self, seg):
+        if not hasattr(seg, 'prev_frame'):
+            return super().segment(seg)
+        sid = self.seg_ids.get(id(seg))
+        if sid is not None:
+            return sid
+        sid = len(self.seg_ids)
+        self.seg_ids[id(seg)] = sid
+        slot = [None]
+        self.seg_out.append(slot)
+        slot[0] = ('frame', [self.value(c) for c in seg.cells],
+                   [('prev_frame', self.value(seg.prev_frame))])
+        return sid
+
+
 def mem_parts(cpu):
     """(operand stack, frames+globals+heap, device cursors) canonical texts"""
-    c = Canon()
+    c = _StoreCanon()
     stack = repr(c.value(cpu.stack))
     store = repr((c.value(cpu.cur_frame), c.value(cpu.globals_segment)))
     devs = []
